@@ -248,16 +248,18 @@ def rho_spherical(ctx, x, o, dim):
 def rho_hyperspherical(ctx, x, o, dim):
     m = ctx.m
     nu = (dim - 1) / 2
-    f1 = m.fn("hyp2f1", 0.5, -nu, 1.5, 1)
+    fac = 1.0 / m.fn("hyp2f1", 0.5, -nu, 1.5, 1)     # a concrete number for fixed dimension
     if ctx.mode == "conc":
-        return 1 - x * m.fn("hyp2f1", 0.5, -nu, 1.5, x * x) / f1 if x < 1 else 0.0
-    return m.ite(ctx.lt(x, 1), 1 - x * m.fn("hyp2f1", 0.5, -nu, 1.5, x * x) / f1, 0)
+        return 1 - x * m.fn("hyp2f1", 0.5, -nu, 1.5, x * x) * fac if x < 1 else 0.0
+    return m.ite(ctx.lt(x, 1), 1 - x * m.fn("hyp2f1", 0.5, -nu, 1.5, x * x) * fac, 0)
 
 
 def rho_superspherical(ctx, x, o, dim):
     m = ctx.m
     nu = o["nu"]
     f1 = m.fn("hyp2f1", 0.5, -nu, 1.5, 1.0)
+    # 2F1(1/2,-nu;3/2;1) = sqrt(pi) Gamma(nu+1) / (2 Gamma(nu+3/2)) > 0 for nu > -1
+    ctx.hint(ctx.gt(f1, 0), "2F1(1/2,-nu;3/2;1)>0 for nu>-1")
     if ctx.mode == "conc":
         return 1 - x * m.fn("hyp2f1", 0.5, -nu, 1.5, x * x) / f1 if x < 1 else 0.0
     return m.ite(ctx.lt(x, 1), 1 - x * m.fn("hyp2f1", 0.5, -nu, 1.5, x * x) / f1, 0)
